@@ -922,9 +922,13 @@ func verifLemmaProgress(g *Graph, t *Task) {}
 //@   trusted os.Stdout.Stat
 //@   ensures [true] true
 //@   modifies nothing
+//@ func io.ReadAll
+//@   trusted reads the reader to its end (os.Stdin is the only reader passed): returns the bytes standing on stdin or an error
+//@   ensures [bytes] ret1 == nil ==> content(ret0) == stdinData()
+//@   ensures [fresh] ret0 == nil || fresh(ret0)
+//@   modifies nothing
 //@ func readBodyFromStdinOrEmpty
-//@   trusted io.ReadAll(os.Stdin)
-//@   ensures [true] true
+//@   ensures [verbatim] ret1 == nil ==> ret0 == stdinData()
 //@   modifies nothing
 //@ func ParseTaskInput
 //@   trusted strict JSON decoding of stdin (encoding/json, DisallowUnknownFields, single value)
@@ -940,6 +944,11 @@ func verifLemmaProgress(g *Graph, t *Task) {}
 //@ func (*TaskInput).validate
 //@   requires [recv] t != nil
 //@   ensures [valid-state] ret == nil && t.State != nil ==> validState(deref(t.State))
+//@   ensures [claim-needed] ret == nil && t.State != nil && (deref(t.State) == "doing" || deref(t.State) == "error") ==> !(t.Claim != nil && deref(t.Claim) == "")
+//@   ensures [result-pair] ret == nil ==> ((t.ResultPath != nil) <==> (t.ResultSummary != nil))
+//@   ensures [epic-restrictions] ret == nil && isEpic ==> t.Epic == nil && t.State == nil && t.Claim == nil
+//@   ensures [title-required] ret == nil && requireTitle ==> t.Title != nil && trimSpace(deref(t.Title)) != ""
+//@   ensures [no-blank-text] ret == nil ==> (t.Body != nil ==> trimSpace(deref(t.Body)) != "") && (t.Title != nil ==> trimSpace(deref(t.Title)) != "")
 //@   modifies nothing
 
 //@ func claimedAtForTask
@@ -975,6 +984,7 @@ func verifLemmaProgress(g *Graph, t *Task) {}
 //@   ensures [one-commit] commits <= old(commits) + 1
 //@   ensures [json-one-value] opts.JSON && ret == nil ==> stdoutJSON == old(stdoutJSON) + 1 && stdoutText == old(stdoutText)
 //@   ensures [json-error-at-most-one] opts.JSON && ret != nil ==> stdoutJSON <= old(stdoutJSON) + 1 && stdoutText == old(stdoutText)
+//@   ensures [body-stdin-verbatim] opts.BodyStdin && ret == nil ==> created.Body == stdinData()
 //@   modifies ghost lk, ghost epoch, ghost blocking, ghost fsWrites, ghost fsExists, ghost logv, ghost commits, ghost appended, ghost logWrites, ghost tailTorn, ghost tmpStage, ghost readEpoch, ghost readVersion
 //@   modifies ghost stdoutJSON, ghost stdoutText, ghost stderrText
 
@@ -993,6 +1003,7 @@ func verifLemmaProgress(g *Graph, t *Task) {}
 //@   ensures [fail-unchanged] ret != nil ==> logv == old(logv)
 //@   ensures [one-commit] commits <= old(commits) + 1
 //@   ensures [reply-state-read-after-updates] opts.JSON && ret == nil && commits > old(commits) + 1 ==> readVersion == logv
+//@   ensures [body-stdin-verbatim] opts.BodyStdin && ret == nil ==> created.Body == stdinData()
 //@   ensures [json-one-value] opts.JSON && ret == nil ==> stdoutJSON == old(stdoutJSON) + 1 && stdoutText == old(stdoutText)
 //@   ensures [json-error-at-most-one] opts.JSON && ret != nil ==> stdoutJSON <= old(stdoutJSON) + 1 && stdoutText == old(stdoutText)
 //@   modifies ghost lk, ghost epoch, ghost blocking, ghost fsWrites, ghost fsExists, ghost logv, ghost commits, ghost appended, ghost logWrites, ghost tailTorn, ghost tmpStage, ghost readEpoch, ghost readVersion
